@@ -122,7 +122,8 @@ func (r Row) scanBytes(i int) []byte {
 	case string:
 		return []byte(rv)
 	case []byte:
-		return rv
+		// a copy: the row can point to cached database pages
+		return append([]byte{}, rv...)
 	default:
 		panic("impossible")
 	}
